@@ -154,7 +154,11 @@ static uint64_t runCase(const uint8_t* p, size_t n, std::string* text) {
 		case 2: request(fsm, type, dest); std::snprintf(buf, sizeof buf, "%s(%d)", TTN[type], dest); observe(buf); break;
 		case 3: if (type == 4) { request(fsm, type, dest); } else switch (type) { case 0: fsm.immediateChangeTo((StateID) dest); break; case 1: fsm.immediateRestart((StateID) dest); break; case 2: fsm.immediateResume((StateID) dest); break; default: fsm.immediateSelect((StateID) dest); break; }
 			std::snprintf(buf, sizeof buf, "immediate %s(%d)", TTN[type], dest); observe(buf); break;
-		case 4: fsm.reset(); observe("reset"); break;
+		case 4:
+#ifdef HVF_MANUAL
+			if (r[1] >= 128) { fsm.exit(); observe("exit"); fsm.enter(); observe("enter"); break; } // a restart: nothing of the previous session may leak into the next
+#endif
+			fsm.reset(); observe("reset"); break;
 		default: fsm.update(); observe("update"); break;
 		}
 	}
